@@ -22,7 +22,7 @@ static PyObject* PyCHist_chist(PyObject* self, PyObject* args) {
     npy_intp nbin = 0, ndata=0, nrev=0;
     npy_int64
         i=0,
-        binnum_old = 0,
+        binnum_old = 0, offset_end = 0,
         offset = 0, data_index = 0, binnum=0, tbin = 0;
     double thisdata=0;
 
@@ -50,6 +50,7 @@ static PyObject* PyCHist_chist(PyObject* self, PyObject* args) {
     // this is my reverse engineering of the IDL reverse
     // indices
     binnum_old = -1;
+    offset_end = nbin + 1;
 
     for (i=0; i<ndata; i++) {
 
@@ -79,13 +80,15 @@ static PyObject* PyCHist_chist(PyObject* self, PyObject* args) {
             // Update the histogram
             hist[binnum] = hist[binnum] + 1;
             binnum_old = binnum;
+            // one past the last datum that was counted
+            offset_end = offset + 1;
         }
     }
 
     tbin = binnum_old + 1;
     while (tbin <= nbin) {
         if (dorev) {
-            rev[tbin] = nrev;
+            rev[tbin] = offset_end;
         }
         tbin++;
     }
